@@ -63,6 +63,10 @@ pub fn alphabet() -> Vec<(String, &'static str)> {
         (module("Auto", "AUTOMATIC TAGS", "", &a), "ts"),
         (format!("{}{}", module("One", "AUTOMATIC TAGS", "IMPORTS T2 FROM Two;\n", &["T1 ::= SEQUENCE { t T2 }".into()]), module("Two", "", "", &["T2 ::= SET { x [0] INTEGER, y [1] VisibleString (FROM (\"a\"..\"z\")) }".into()])), "rasn"),
         ("Broken DEFINITIONS ::= BEGIN A ::= SEQUENCE { a §".to_string(), "rasn"),
+        // two "versions" of one specification: identical module / type / template / value names and identical
+        // instantiations, different bodies — anything cached by name across compilations shows here
+        (module("Versioned", "AUTOMATIC TAGS", "", &["Wrapper { INTEGER:upper } ::= SEQUENCE { count INTEGER (0..upper) }".into(), "Impl ::= Wrapper { 5 }".into(), "Box2 { T } ::= SEQUENCE { item T }".into(), "Use ::= Box2 { BOOLEAN }".into(), "Same ::= INTEGER (0..7)".into(), "Rec ::= SEQUENCE { a Same, b Same OPTIONAL }".into(), "same INTEGER ::= 3".into(), "Pick ::= ENUMERATED { x, y }".into(), "Str ::= IA5String (FROM (\"a\"..\"f\"))".into()]), "rasn"),
+        (module("Versioned", "AUTOMATIC TAGS", "", &["Wrapper { INTEGER:upper } ::= SEQUENCE { count INTEGER (0..upper), flag BOOLEAN }".into(), "Impl ::= Wrapper { 5 }".into(), "Box2 { T } ::= SEQUENCE { item T, extra NULL }".into(), "Use ::= Box2 { BOOLEAN }".into(), "Same ::= INTEGER (0..70000)".into(), "Rec ::= SEQUENCE { a Same OPTIONAL, b Same }".into(), "same INTEGER ::= 300".into(), "Pick ::= ENUMERATED { y, x, z }".into(), "Str ::= IA5String (FROM (\"p\"..\"z\"))".into()]), "rasn"),
     ]
 }
 
@@ -112,7 +116,7 @@ impl Prop for C11 {
         "C11"
     }
     fn rule(&self) -> String {
-        "observation = generated bytes + sorted warnings (rustfmt unreachable). (1) permutations: a 14-assignment module with forward/backward references (reversal, every adjacent transposition, every rotation), every closed sub-list of <=5 assignments in all orders (<=120), the same for modules inside one source and for sources of one compiler over 2..3-module import sets; (2) histories: BFS over sequences of compile operations from a 6-input alphabet that differs in every piece of per-run state (tagging default, extensibility, warnings, charset tables, backend, multi-module, failing input), depth <=3 (thorough 4), each step compared with the same operation in a fresh process; (3) schedules: shuttle::check_dfs over 2 threads × 1 compilation each (thorough: 2×2 and 3×1) with scheduling points at the verif_hooks stage boundaries, every compilation compared with its sequential reference; (4) the 6 inputs in 8 fresh processes (a sample of hash seeds — labelled sampling, not what the claim rests on). Non-trivial: at least two executions were compared.".into()
+        "observation = generated bytes + sorted warnings (rustfmt unreachable). (1) permutations: a 14-assignment module with forward/backward references (reversal, every adjacent transposition, every rotation), every closed sub-list of <=5 assignments in all orders (<=120), the same for modules inside one source and for sources of one compiler over 2..3-module import sets; (2) histories: BFS over sequences of compile operations from an 8-input alphabet (incl. two versions of one specification with identical names and instantiations but different bodies) that differs in every piece of per-run state (tagging default, extensibility, warnings, charset tables, backend, multi-module, failing input), depth <=3 (thorough 4), each step compared with the same operation in a fresh process; (3) schedules: shuttle::check_dfs over 2 threads × 1 compilation each (thorough: 2×2 and 3×1) with scheduling points at the verif_hooks stage boundaries, every compilation compared with its sequential reference; (4) the 6 inputs in 8 fresh processes (a sample of hash seeds — labelled sampling, not what the claim rests on). Non-trivial: at least two executions were compared.".into()
     }
     fn nondeterminism_is_violation(&self) -> bool {
         true
@@ -207,7 +211,7 @@ impl Prop for C11 {
             hs = next;
         }
         // ---- (3) schedules
-        let pairs: Vec<(usize, usize)> = vec![(0, 1), (1, 0), (0, 0), (2, 4), (4, 2), (1, 4), (3, 0), (5, 1), (2, 2), (4, 4)];
+        let pairs: Vec<(usize, usize)> = vec![(0, 1), (1, 0), (0, 0), (2, 4), (4, 2), (1, 4), (3, 0), (5, 1), (2, 2), (4, 4), (6, 7), (7, 6)];
         for (x, y) in &pairs {
             out.push(Case { kind: "schedule".into(), label: "schedule:2x1".into(), base: vec![], permuted: vec![], ops: vec![*x, *y], threads: 2 });
         }
